@@ -110,7 +110,22 @@ def execute(dev):
         delta = 2.0 * scale + tol
         # --- every source outline placed exactly once, nothing else ------------------
         if fmt == "glyf" and len(placed) == 1 and len(src) > 1 and not font["glyf"][name].isComposite():
-            out.append(bad("C03.outline-count", f"{name}: simple glyph for {len(src)} source shapes"))
+            # the components were decomposed into one simple glyph (a component scale beyond what a
+            # TrueType composite can hold) and overlaps were removed: individual outlines are gone, so the
+            # clause becomes an equality of coverage: inside every source shape <=> inside the glyph
+            own_ = paths.glyph_path(gs, name)
+            miss = extra_ = 0
+            pts = common.region_probes(cfg, adv, user, 20)
+            for leaf in src:
+                pts += common.leaf_probes(leaf, M, 5)
+            for p in pts:
+                refs = picture.stencil(lambda q: ref_at(q), p, delta)
+                if all(r[3] > 0 for r in refs) and not own_.contains(p):
+                    miss += 1
+                if all(r[3] == 0 for r in refs) and own_.contains(p):
+                    extra_ += 1
+            if miss or extra_:
+                out.append(bad("C03.outline-placement", f"{name}: decomposed glyph covers {extra_} probes outside every source shape and misses {miss} probes inside one"))
         elif len(placed) != len(src) and not (fmt == "glyf" and len(src) == 1):
             out.append(bad("C03.outline-count", f"{name}: {len(placed)} placed outlines for {len(src)} source shapes"))
         else:
@@ -186,6 +201,11 @@ def run(report, tier, only=None):
     selftest.run(report)
     k = int(only) if only and only.isdigit() else K[tier]
     lattice.explore(report, DIMS, k, execute, relevant=scenes.relevant, timeout=300)
+    # the plain glyf build has its own code path (components, single-component collapse): a second
+    # lattice with glyf as the base format, so that two scene deviations are explored under it as well
+    dims_glyf = {k_: v for k_, v in DIMS.items() if k_ != "fmt"}
+    dims_glyf["fmt"] = ["glyf"]
+    lattice.explore(report, dims_glyf, k, lambda dev: execute(dict(dev, fmt="glyf")), relevant=scenes.relevant, timeout=300, tag="glyf")
     report.extra["deviation_bound"] = k
     report.rule = (
         "E1 over the scene/config lattice x {glyf_colr_0, glyf, cff_colr_0, cff2_colr_0} x {solid-only, with gradients}, <= %d deviations; "
